@@ -251,6 +251,25 @@ func (j *Judge) Maintain(c *Context, res *drummer.VerifSchedResult, exhausted bo
 		return
 	}
 	cls := classOf(res)
+	// C05 class partition, on the scheduler's own classification: every member of a view listed for repair is in exactly
+	// one of failed / healthy / waiting-to-be-started
+	for _, rp := range res.Repairs {
+		seen := map[uint64]int{}
+		for _, l := range [][]uint64{rp.Failed, rp.OK, rp.ToStart} {
+			for _, x := range l {
+				seen[x]++
+			}
+		}
+		if v := c.ShardImage.Shards[rp.ShardID]; v != nil {
+			run.Count("c05:classification_checked")
+			for rid := range v.Replicas {
+				if seen[rid] != 1 {
+					j.fail("C05", "class_partition", "member-not-in-exactly-one-class", fmt.Sprintf("shard %d: member %d is in %d of the scheduler's classes (failed %v, healthy %v, waiting %v)", rp.ShardID, rid, seen[rid], rp.Failed, rp.OK, rp.ToStart))
+					break
+				}
+			}
+		}
+	}
 	restored := map[uint64]int{}
 	changes := map[uint64]int{}
 	kills := map[dbx.DKill]int{}
